@@ -827,6 +827,10 @@ func c16(c *core.Ctx) {
 	// caller replace an error only if it IS one of the context sentinels — an interceptor's error that merely wraps
 	// one keeps its own code (C02/R10)
 	c.Borrow("C02", map[string]string{"R10": "R10"}, c02)
+	// "the handler runs iff every interceptor calls onward" — and what a rejecting interceptor returns instead reaches
+	// the caller: the in-process server's final frames are delivered because its done signal releases a client that is
+	// still sending (C05/R7)
+	c.Borrow("C05", map[string]string{"R7": "R11"}, c05)
 }
 
 func sameFieldLoad(a, b ssa.Value) bool {
